@@ -74,14 +74,16 @@ def _slice(t, i):
     return slice(*vals), j + 1
 
 
-def reference(s):
-    """-> (verdict, structure) ; structure = (subset_slice, [(sep, id, slice)])"""
+def reference(s, bare_all=True):
+    """-> (verdict, structure) ; structure = (subset_slice, [(sep, id, slice)]).  bare_all: what an absent slice means -
+    every occurrence (the default parser) or the first one (NodePathParser(bare_id_matches_all=False))"""
+    absent = slice(None, None, None) if bare_all else 0
     t = ''.join(c for c in s if c not in WS)
     if t == '':
         return REJECT, None
     unspec = False
     i = 0
-    subset = slice(None, None, None)
+    subset = absent
     has_at = False
     try:
         if t[0] == '@':
@@ -112,7 +114,7 @@ def reference(s):
             if ident == '':
                 return REJECT, None
             i = j
-            slc = slice(None, None, None)
+            slc = absent
             if i < len(t) and t[i] == '[':
                 slc, i = _slice(t, i)
             comps.append((sep, ident, slc))
@@ -133,7 +135,10 @@ def structure_of(p):
 
 
 def judge(ctx, parser, PErr, s, origin):
-    verdict, want = reference(s)
+    verdict, want = reference(s, getattr(parser, 'bare_id_matches_all', True))
+    if not getattr(parser, 'bare_id_matches_all', True):
+        ctx.count('judged_with_first_match_parser')
+        origin = origin + '/first-match-parser'
     try:
         p = parser.parse(s)
         got = structure_of(p)
@@ -245,6 +250,7 @@ def run(ctx):
     from pybufrkit.dataquery import NodePathParser
     from pybufrkit.errors import PathExprParsingError
     parser = NodePathParser()
+    parser1 = NodePathParser(bare_id_matches_all=False)   # the documented option: a bare ID means its first occurrence
     maxlen = 5 if ctx.quick else 6
     n = 0
     for L in range(0, maxlen + 1):
@@ -254,6 +260,7 @@ def run(ctx):
                 n += 1
                 if ctx.mine(n):
                     judge(ctx, parser, PathExprParsingError, ''.join(tup), 'exhaustive')
+                    judge(ctx, parser1, PathExprParsingError, ''.join(tup), 'exhaustive')
                     ctx.count('exhaustive_strings')
             continue
         for a, head in enumerate(itertools.product(ALPHABET, repeat=2)):
@@ -262,6 +269,8 @@ def run(ctx):
             h = ''.join(head)
             for tup in itertools.product(ALPHABET, repeat=L - 2):
                 judge(ctx, parser, PathExprParsingError, h + ''.join(tup), 'exhaustive')
+                if L <= 4:
+                    judge(ctx, parser1, PathExprParsingError, h + ''.join(tup), 'exhaustive')
                 ctx.count('exhaustive_strings')
     # random grammar-derived + all single-char mutations
     rng = ctx.rng
@@ -272,6 +281,7 @@ def run(ctx):
             break
         s = rand_expr(rng)
         judge(ctx, parser, PathExprParsingError, s, 'random')
+        judge(ctx, parser1, PathExprParsingError, s, 'random')
         ctx.count('random_expressions')
         if q == 0:
             ctx.sample(dict(string=s, verdict=reference(s)[0]))
@@ -283,8 +293,10 @@ def run(ctx):
                 muts.add(s[:i] + s[i + 1:])
                 for c in rng.sample(mut_alpha, 3):
                     muts.add(s[:i] + c + s[i + 1:])
-        for m in muts:
+        for mi, m in enumerate(muts):
             judge(ctx, parser, PathExprParsingError, m, 'mutation')
+            if mi % 4 == 0:
+                judge(ctx, parser1, PathExprParsingError, m, 'mutation')
             ctx.count('mutations')
 
 
